@@ -13,6 +13,8 @@ type RuntimeOpts struct {
 	Rules       bool // buf.validate rules on some body fields
 	ErrorTypes  bool // messages named *Error (custom error types)
 	ManyMethods bool
+	// TrailingSlash sometimes ends an RPC path with "/".
+	TrailingSlash bool
 }
 
 var urlFieldNames = []string{"user_id", "org", "page", "q", "name", "ratio", "flag", "item_id", "limit", "cursor", "since", "tenant_name"}
@@ -73,6 +75,9 @@ func GenRuntimeFile(r *R, idx int, o RuntimeOpts) *ir.Request {
 			if r.Bool() {
 				path += fmt.Sprintf("/s%d", v)
 			}
+		}
+		if o.TrailingSlash && r.P(1, 3) {
+			path += "/"
 		}
 		nq := r.Intn(4)
 		if verb == "GET" && nq == 0 {
@@ -164,7 +169,10 @@ func GenErrorFile(r *R, idx int) *ir.Request {
 	street := Pick(r, []string{"street", "street_name", "addr2"})
 	leaf := &ir.Message{Name: "Leaf", Fields: []*ir.Field{{Name: street, Number: 1, Kind: "string", Rules: &ir.Rules{MinLen: &one}}, {Name: "zip", Number: 2, Kind: "int32"}}}
 	reply := &ir.Message{Name: "Reply", Fields: []*ir.Field{{Name: "id", Number: 1, Kind: "string"}, {Name: "n", Number: 2, Kind: "int64"}}}
-	getReq := &ir.Message{Name: "GetReq", Fields: []*ir.Field{{Name: "num", Number: 1, Kind: "int32"}, {Name: "must", Number: 2, Kind: "string", Ann: ir.Ann{Query: &ir.Query{Name: "must", Required: true}}}}}
+	getReq := &ir.Message{Name: "GetReq", Fields: []*ir.Field{{Name: "num", Number: 1, Kind: "int32"}, {Name: "must", Number: 2, Kind: "string", Ann: ir.Ann{Query: &ir.Query{Name: "must", Required: true}}},
+		// a query parameter whose wire name differs from its field name, of a kind that can fail to parse
+		{Name: "limit", Number: 3, Kind: "int32", Ann: ir.Ann{Query: &ir.Query{Name: "page_size"}}},
+		{Name: "include_archived", Number: 4, Kind: "bool", Ann: ir.Ann{Query: &ir.Query{Name: "archived"}}}}}
 	postReq := &ir.Message{Name: "PostReq", Fields: []*ir.Field{
 		{Name: "name", Number: 1, Kind: "string", Rules: &ir.Rules{MinLen: &one}},
 		{Name: "qty", Number: 2, Kind: "int32", Rules: &ir.Rules{Gte: &z}},
